@@ -121,6 +121,13 @@ CHECKS["C05"] = dict(engine="scenario", design="4 C05", technique="TLA+ model ch
          "joins its intended case, impossible-pin ids and ids after an unresolved citation join nothing, one resource per case. Every scenario (quick: 30,000 per configuration) is rendered into ONE running text, "
          "extracted and resolved by the real code, and TLC judges the recorded grouping with the same clauses."),
    note="Trusted: TLC + Json; rendering of sentences (harness/drv_extract.py); a sentence not extracted as exactly one citation of the written kind makes the document 'not judged' (counted; extraction is C01).")
+CHECKS["C01"] = dict(engine="forms", design="4 C01", technique="TLA+ grammar specification Forms.tla (TLC enumerates every document shape with its slot-level ground truth) + database-exhaustive concretisation + TLC-judged exact comparison",
+   text=("Forms.tla specifies the documented citation language as slot sequences (lead, parties, pre-citation year, core, pin cite, parallel cite, year / court / bracket parenthetical, parenthetical, terminator, trailing text) "
+         "for the six forms, the domain rules of the property, and Expected(shape): which slots the span covers, where every component is written, where the full span starts and ends. TLC enumerates all ~9,200 valid shapes "
+         "and checks the ground truth is internally consistent. Every shape is concretised (reporter strings, courts from courts-db, names, numbers) and every plain-template reporter string of reporters-db (~2,900 edition names "
+         "and variations) is run through the minimal 'vol R page' and 'vol R at page' forms; TLC compares the projected result of get_citations with the concrete expectation: count, kind, exact span, groups, pin cite, year, court, "
+         "defendant, plaintiff suffix, antecedent, parenthetical, full-span start and end (adjacent whitespace tolerance), written reporter among the candidate editions unless a second pattern matches the same characters."),
+   note="Trusted: TLC + Json; concretisation in harness/forms.py; editions with custom templates, variations ending in ',' or ' at' are excluded (counted); for short / supra / id. forms the full-span end is judged as 'reaches the span end, at most the closing parenthesis'.")
 NA_REASON = "check not built yet (work in progress; see DESIGN.md section 10 build order)"
 checks = []
 for p in props:
@@ -164,6 +171,8 @@ m = {"version": 1,
               "serves_properties": ["C19"], "kind_free_text": "TLA+ spec, TLC model checking, TLC-judged markup-vs-plain comparison"},
              {"name": "scenario", "path": "spec/Scenario.tla spec/MC_Scenario.tla spec/Trace_Scenario.tla spec/Resolve.tla harness/chk_scenario.py harness/drv_extract.py",
               "serves_properties": ["C05"], "kind_free_text": "TLA+ scenario spec over the resolution model, TLC model checking, running-text replay, TLC trace validation"},
+             {"name": "forms", "path": "spec/Forms.tla spec/MC_Forms.tla spec/Trace_Forms.tla harness/chk_forms.py harness/forms.py harness/drv_extract.py",
+              "serves_properties": ["C01"], "kind_free_text": "TLA+ grammar + ground-truth spec, TLC shape enumeration, database-exhaustive concretisation, TLC-judged comparison"},
              {"name": "annotate", "path": "spec/Annotate.tla spec/SpanUpdater.tla spec/MC_Annotate.tla spec/MC_SpanUpdater.tla spec/Trace_Annotate.tla spec/Trace_SpanUpdater.tla harness/chk_annotate.py harness/drv_annotate.py",
               "serves_properties": ["C09", "C10", "C11"], "kind_free_text": "TLA+ spec, TLC model checking, configuration replay, TLC trace validation"}],
  "checks": checks,
